@@ -456,7 +456,14 @@ def rule_propagation(repo, col):
     else:
         m = repo.mod(ERR)
         par = m.parent.get(found)
-        col.check(isinstance(par, ast.Return), rule, ERR,
+        returned = isinstance(par, ast.Return)
+        if not returned and isinstance(par, ast.Assign) and len(
+                par.targets) == 1 and isinstance(par.targets[0], ast.Name):
+            # result = self._handle_error(...); ...; return result
+            nm = par.targets[0].id
+            returned = any(isinstance(r, ast.Return) and
+                           dotted(r.value) == nm for r in ast.walk(f))
+        col.check(returned, rule, ERR,
                   'ErrorProfile.test', 'forward', found,
                   'the handler result is returned',
                   'the handler result is dropped (a raise reaction would '
